@@ -20,6 +20,7 @@ import (
 	"strconv"
 	"strings"
 	"sync"
+	"sync/atomic"
 	"time"
 
 	"github.com/enbility/ship-go/api"
@@ -401,6 +402,15 @@ type act struct {
 	E  string `json:"e"`
 	M  string `json:"m"`
 	ID string `json:"id"`
+	C1 *call  `json:"c1,omitempty"` // Par: the two entry points called at the same time
+	C2 *call  `json:"c2,omitempty"`
+}
+
+// call is one entry point of a Par step: Inject (m, id) | Timeout | Approve | Cancel | Close (m = T / F) | ConnErr
+type call struct {
+	K  string `json:"k"`
+	M  string `json:"m"`
+	ID string `json:"id"`
 }
 
 type expect struct {
@@ -423,6 +433,8 @@ type step struct {
 	X map[string]expect   `json:"x"` // absent on the prefix steps of an edge test
 	N map[string]int      `json:"n"`
 	P map[string][]string `json:"p"` // edge tests: delayed goroutines pending after the step
+	// Par: the expectation for the other order of the two calls
+	Alt map[string]expect `json:"alt"`
 }
 
 type cfg struct {
@@ -557,6 +569,47 @@ func normSleep(ev []vh.Event) []vh.Event {
 	return out
 }
 
+var parNonSeq atomic.Int64
+
+// parCall is one entry point of a Par step on the real connection
+func parCall(e *endpoint, c *call, pick int, token interface{}) func() {
+	switch c.K {
+	case "Inject":
+		msg := concrete(c.M, c.ID, pick)
+		return func() { e.c.HandleIncomingWebsocketMessage(msg) }
+	case "Timeout":
+		// what the timer's goroutine does when it expires: nothing if the timer was stopped or replaced meanwhile
+		return func() { e.c.VerifFireTimeoutOf(token) }
+	case "Approve":
+		return func() {
+			e.info.mu.Lock()
+			e.info.paired, e.info.wait = true, true
+			e.info.mu.Unlock()
+			e.c.ApprovePendingHandshake()
+		}
+	case "Cancel":
+		return func() {
+			e.c.AbortPendingHandshake()
+			e.info.mu.Lock()
+			e.info.paired = false
+			e.info.mu.Unlock()
+		}
+	case "Close":
+		if c.M == "T" {
+			return func() { e.c.CloseConnection(true, 4500, "User close") }
+		}
+		return func() { e.c.CloseConnection(false, 0, "") }
+	case "ConnErr":
+		return func() {
+			e.w.mu.Lock()
+			e.w.closed = true
+			e.w.mu.Unlock()
+			e.c.ReportConnectionError(errors.New("injected transport error"))
+		}
+	}
+	panic("unknown call " + c.K)
+}
+
 func diff(real, exp expect) string {
 	var d []string
 	add := func(k string, a, b interface{}) {
@@ -644,7 +697,7 @@ func runTest(t *test, seed int) (obsTrace, *divergence) {
 			continue
 		}
 		pick := seed + t.ID*7 + i
-		var res *vh.CallResult
+		var res, parRes *vh.CallResult
 		obsAct := a
 		who := []string{a.E}
 		switch a.A {
@@ -772,6 +825,24 @@ func runTest(t *test, seed int) (obsTrace, *divergence) {
 			case "WriteSpine":
 				payload := []byte(fmt.Sprintf(`{"datagram":{"n":"%s"}}`, a.ID))
 				f = func() { e.c.WriteShipMessageWithPayload(payload) }
+			case "Par":
+				// two entry points at the same time, from two goroutines released together
+				var token interface{}
+				if a.C1.K == "Timeout" || a.C2.K == "Timeout" {
+					token = e.c.VerifTimerToken()
+				}
+				f1 := parCall(e, a.C1, pick, token)
+				f2 := parCall(e, a.C2, pick, token)
+				f = func() {
+					start := make(chan struct{})
+					r1 := make(chan *vh.CallResult, 1)
+					r2 := make(chan *vh.CallResult, 1)
+					go func() { <-start; r1 <- vh.Call(callDeadline, f1) }()
+					go func() { <-start; r2 <- vh.Call(callDeadline, f2) }()
+					close(start)
+					a1, a2 := <-r1, <-r2
+					parRes = &vh.CallResult{Panicked: a1.Panicked || a2.Panicked, Hung: a1.Hung || a2.Hung, PanicMsg: a1.PanicMsg + a2.PanicMsg}
+				}
 			default:
 				panic("unknown action " + a.A)
 			}
@@ -796,7 +867,10 @@ func runTest(t *test, seed int) (obsTrace, *divergence) {
 					e.blocked = res
 				}
 			} else {
-				res = vh.Call(callDeadline, f)
+				res = vh.Call(2*callDeadline, f)
+				if parRes != nil {
+					res = parRes
+				}
 			}
 		}
 		for _, n := range who {
@@ -815,7 +889,14 @@ func runTest(t *test, seed int) (obsTrace, *divergence) {
 					real.Ev, exp.Ev = normSleep(real.Ev), normSleep(exp.Ev)
 				}
 				if d := diff(real, exp); d != "" {
-					noteDiv(i, a, n+": "+d)
+					if alt, ok := st.Alt[n]; a.A == "Par" && ok {
+						// neither order of the two calls explains the outcome: the entry points did not act atomically
+						if diff(real, alt) != "" {
+							parNonSeq.Add(1)
+						}
+					} else {
+						noteDiv(i, a, n+": "+d)
+					}
 				}
 			}
 			if panicked || hung {
@@ -959,7 +1040,7 @@ func main() {
 	out.Close()
 	sort.Slice(divs, func(i, j int) bool { return divs[i].Test < divs[j].Test })
 	sum := map[string]interface{}{
-		"tests": len(tests), "steps": steps, "divergences": len(divs), "wall_s": time.Since(t0).Seconds(),
+		"tests": len(tests), "steps": steps, "divergences": len(divs), "par_not_sequential": parNonSeq.Load(), "wall_s": time.Since(t0).Seconds(),
 	}
 	if len(divs) > 200 {
 		sum["divergence_samples"] = divs[:200]
